@@ -429,8 +429,16 @@ func (sc *scen) publish(c *cl, r *rand.Rand, replace string) {
 	pick := r.IntN(5)
 	if sc.threeTracks {
 		pick = 2
+		if r.IntN(2) == 0 {
+			pick = 5
+		}
+	} else if r.IntN(10) == 0 {
+		pick = 5
 	}
 	switch pick {
+	case 5:
+		// three video tracks: "video-low" means the LAST one, not the second
+		tracks = []vrtc.TrackSpec{{Kind: "audio", ID: "a0"}, {Kind: "video", ID: "v0"}, {Kind: "video", ID: "v1"}, {Kind: "video", ID: "v2"}}
 	case 0:
 		tracks = []vrtc.TrackSpec{{Kind: "audio", ID: "a0"}}
 	case 1:
@@ -517,6 +525,9 @@ func (sc *scen) publish(c *cl, r *rand.Rand, replace string) {
 	sc.run.Count("streams_published", 1)
 	if len(tracks) == 3 {
 		sc.run.Count("two_video_track_streams", 1)
+	}
+	if len(tracks) == 4 {
+		sc.run.Count("three_video_track_streams", 1)
 	}
 }
 
